@@ -278,21 +278,3 @@ def _b_type(ex, st, args, kw, node):
 
 lib.BUILTINS['type'] = _b_type
 
-
-# ---- (m5, round 3) obligations raised under a comprehension binder keep their guards INSIDE the quantifier -----------
-# Ctx.add_oblig wraps the goal with the bound variables of the enclosing comprehension (`forall j: 0 <= j < n -> goal`) but
-# leaves the guards of conditional expressions (`betas[x] if x in betas else ...`) in the hypotheses, where the bound variable
-# is a FREE constant: the guard is lost and the implicit-exception obligation of the guarded operand can never be discharged
-# (false alarm, not unsound).  State._close, which wraps ASSUMED facts, puts the guards inside; this does the same for goals.
-# Sound: the guards are exactly the conditions under which the operand is evaluated for that instance of the bound variable.
-# C12 only (get_value_and_derivatives without check_safe=False); redundant, and harmless, once the core does it.
-_orig_add_oblig = _symexec.Ctx.add_oblig
-
-
-def _add_oblig(self, st, kind, label, goal, line=0, note='', witness=None):
-    if self.prop == 'C12' and st.bound and st.guards and not isinstance(goal, bool):
-        goal = z3.Implies(z3.And(*st.guards), goal)
-    return _orig_add_oblig(self, st, kind, label, goal, line=line, note=note, witness=witness)
-
-
-_symexec.Ctx.add_oblig = _add_oblig
